@@ -24,7 +24,7 @@ Ev == Rec[l].ev
 Step == l' = l + 1
 Obs(cond) == cond /\ Step /\ UNCHANGED <<vars, pending, note>>
 
-NoScene == [cfg |-> [suffix |-> FALSE, buckets |-> <<>>, quantiles |-> <<>>, globals |-> <<>>], fams |-> <<>>]
+NoScene == [cfg |-> [suffix |-> FALSE, buckets |-> <<>>, overrides |-> <<>>, quantiles |-> <<>>, globals |-> <<>>], fams |-> <<>>]
 Idle(ph) == [f |-> 0, ph |-> ph, s |-> 0]
 NoLines == [m \in {} |-> 0]
 BagOf(lines) == [m \in ToSet(lines) |-> Cardinality({i \in DOMAIN lines : lines[i] = m})]
